@@ -1,0 +1,301 @@
+//go:build verif
+
+// Contracts for the 12-over-6-over-2 extension tower of this curve (comment-only; installed by /verif/gcv gen-contracts).
+// Layer "ring T": values of type T are elements of an abstract commutative ring and the methods of T are
+// interpreted by the ring operation their own (lower-layer) contract states. The specification products are
+// computed by the tool from the documented defining polynomials:
+//   E2  = Fp[u]/(u^2 - (-5))          E6 = E2[v]/(v^3 - xi), xi = (0, 1)        E12 = E6[w]/(w^2 - v)
+// qmul(nr, a, b) is the schoolbook product of coordinate vectors reduced by X^k = nr.
+
+package fptower
+
+// ---------------- E2 over Fp ----------------
+
+// assembly entry points of the E2 layer on amd64 (e2_amd64.s): assumed contracts, used only under the default tags
+//@ func addE2
+//@ tags default
+//@ assumed assembly (e2_amd64.s): contract of the portable addE2 assumed
+//@ layer ring fp.Element
+//@ ensures[value] vec(arg0) == vadd(old(vec(arg1)), old(vec(arg2)))
+//@ modifies arg0
+//@ end
+
+//@ func subE2
+//@ tags default
+//@ assumed assembly (e2_amd64.s): contract of the portable subE2 assumed
+//@ layer ring fp.Element
+//@ ensures[value] vec(arg0) == vsub(old(vec(arg1)), old(vec(arg2)))
+//@ modifies arg0
+//@ end
+
+//@ func doubleE2
+//@ tags default
+//@ assumed assembly (e2_amd64.s): contract of the portable doubleE2 assumed
+//@ layer ring fp.Element
+//@ ensures[value] vec(arg0) == vscale(2, old(vec(arg1)))
+//@ modifies arg0
+//@ end
+
+//@ func negE2
+//@ tags default
+//@ assumed assembly (e2_amd64.s): contract of the portable negE2 assumed
+//@ layer ring fp.Element
+//@ ensures[value] vec(arg0) == vscale(-1, old(vec(arg1)))
+//@ modifies arg0
+//@ end
+
+//@ func E2.Mul
+//@ tags any
+//@ layer ring fp.Element
+//@ ensures[value] vec(z) == qmul((-5), old(vec(x)), old(vec(y)))
+//@ ensures[result] result == z
+//@ modifies z
+//@ end
+
+//@ func E2.Square
+//@ tags any
+//@ layer ring fp.Element
+//@ ensures[value] vec(z) == qsq((-5), old(vec(x)))
+//@ ensures[result] result == z
+//@ modifies z
+//@ end
+
+//@ func E2.MulByNonResidue
+//@ tags any
+//@ layer ring fp.Element
+//@ ensures[value] vec(z) == qmul((-5), svec(2, 0, 0, 1, 1), old(vec(x)))
+//@ ensures[result] result == z
+//@ modifies z
+//@ end
+
+//@ func E2.Add
+//@ tags any
+//@ layer ring fp.Element
+//@ ensures[value] vec(z) == vadd(old(vec(x)), old(vec(y)))
+//@ ensures[result] result == z
+//@ modifies z
+//@ end
+
+//@ func E2.Sub
+//@ tags any
+//@ layer ring fp.Element
+//@ ensures[value] vec(z) == vsub(old(vec(x)), old(vec(y)))
+//@ ensures[result] result == z
+//@ modifies z
+//@ end
+
+//@ func E2.Double
+//@ tags any
+//@ layer ring fp.Element
+//@ ensures[value] vec(z) == vscale(2, old(vec(x)))
+//@ ensures[result] result == z
+//@ modifies z
+//@ end
+
+//@ func E2.Neg
+//@ tags any
+//@ layer ring fp.Element
+//@ ensures[value] vec(z) == vscale(-1, old(vec(x)))
+//@ ensures[result] result == z
+//@ modifies z
+//@ end
+
+//@ func E2.Conjugate
+//@ layer ring fp.Element
+//@ ensures[value] vec(z) == vconj2(old(vec(x)))
+//@ ensures[result] result == z
+//@ modifies z
+//@ end
+
+//@ func E2.MulByElement
+//@ layer ring fp.Element
+//@ ensures[value] vec(z) == vscale(old(*y), old(vec(x)))
+//@ ensures[result] result == z
+//@ modifies z
+//@ end
+
+//@ func E2.norm
+//@ layer ring fp.Element
+//@ alias none
+//@ ensures[value] *x == vec(z)[0]*vec(z)[0] - (-5)*vec(z)[1]*vec(z)[1]
+//@ modifies x
+//@ end
+
+//@ func E2.Set
+//@ layer ring fp.Element
+//@ ensures[value] vec(z) == old(vec(x))
+//@ ensures[result] result == z
+//@ modifies z
+//@ end
+
+// ---------------- E6 over E2 ----------------
+
+//@ func E6.Mul
+//@ layer ring E2
+//@ ensures[value] vec(z) == qmul(NR_E2, old(vec(x)), old(vec(y)))
+//@ ensures[result] result == z
+//@ modifies z
+//@ end
+
+//@ func E6.Square
+//@ layer ring E2
+//@ ensures[value] vec(z) == qsq(NR_E2, old(vec(x)))
+//@ ensures[result] result == z
+//@ modifies z
+//@ end
+
+//@ func E6.MulByNonResidue
+//@ layer ring E2
+//@ ensures[value] vec(z) == qmul(NR_E2, svec(3, 1, 1), old(vec(x)))
+//@ ensures[result] result == z
+//@ modifies z
+//@ end
+
+//@ func E6.MulByE2
+//@ layer ring E2
+//@ option interior
+//@ ensures[value] vec(z) == vscale(old(*y), old(vec(x)))
+//@ ensures[result] result == z
+//@ modifies z
+//@ end
+
+//@ func E6.MulBy01
+//@ layer ring E2
+//@ option interior
+//@ ensures[value] vec(z) == qmul(NR_E2, old(vec(z)), svec(3, 0, old(*c0), 1, old(*c1)))
+//@ ensures[result] result == z
+//@ modifies z
+//@ end
+
+//@ func E6.MulBy1
+//@ layer ring E2
+//@ option interior
+//@ ensures[value] vec(z) == qmul(NR_E2, old(vec(z)), svec(3, 1, old(*c1)))
+//@ ensures[result] result == z
+//@ modifies z
+//@ end
+
+//@ func E6.MulBy12
+//@ layer ring E2
+//@ option interior
+//@ ensures[value] vec(x) == qmul(NR_E2, old(vec(x)), svec(3, 1, old(*b1), 2, old(*b2)))
+//@ ensures[result] result == x
+//@ modifies x
+//@ end
+
+//@ func E6.Add
+//@ layer ring E2
+//@ ensures[value] vec(z) == vadd(old(vec(x)), old(vec(y)))
+//@ ensures[result] result == z
+//@ modifies z
+//@ end
+
+//@ func E6.Sub
+//@ layer ring E2
+//@ ensures[value] vec(z) == vsub(old(vec(x)), old(vec(y)))
+//@ ensures[result] result == z
+//@ modifies z
+//@ end
+
+//@ func E6.Double
+//@ layer ring E2
+//@ ensures[value] vec(z) == vscale(2, old(vec(x)))
+//@ ensures[result] result == z
+//@ modifies z
+//@ end
+
+//@ func E6.Neg
+//@ layer ring E2
+//@ ensures[value] vec(z) == vscale(-1, old(vec(x)))
+//@ ensures[result] result == z
+//@ modifies z
+//@ end
+
+//@ func E6.Set
+//@ layer ring E2
+//@ ensures[value] vec(z) == old(vec(x))
+//@ ensures[result] result == z
+//@ modifies z
+//@ end
+
+// ---------------- E12 over E6 ----------------
+
+//@ func E12.Mul
+//@ layer ring E6
+//@ ensures[value] vec(z) == qmul(NR_E6, old(vec(x)), old(vec(y)))
+//@ ensures[result] result == z
+//@ modifies z
+//@ end
+
+//@ func E12.Square
+//@ layer ring E6
+//@ ensures[value] vec(z) == qsq(NR_E6, old(vec(x)))
+//@ ensures[result] result == z
+//@ modifies z
+//@ end
+
+//@ func E12.Add
+//@ layer ring E6
+//@ ensures[value] vec(z) == vadd(old(vec(x)), old(vec(y)))
+//@ ensures[result] result == z
+//@ modifies z
+//@ end
+
+//@ func E12.Sub
+//@ layer ring E6
+//@ ensures[value] vec(z) == vsub(old(vec(x)), old(vec(y)))
+//@ ensures[result] result == z
+//@ modifies z
+//@ end
+
+//@ func E12.Double
+//@ layer ring E6
+//@ ensures[value] vec(z) == vscale(2, old(vec(x)))
+//@ ensures[result] result == z
+//@ modifies z
+//@ end
+
+//@ func E12.Conjugate
+//@ layer ring E6
+//@ ensures[value] vec(z) == vconj2(old(vec(x)))
+//@ ensures[result] result == z
+//@ modifies z
+//@ end
+
+// ---------------- E12 as E2[w]/(w^6 - xi): sparse products agree with the generic product ----------------
+
+//@ func E12.MulBy034
+//@ layer ring E2
+//@ option interior
+//@ ensures[value] tvec(z) == t12mul(NR_E2, old(tvec(z)), svec(6, 0, old(*c0), 3, old(*c3), 4, old(*c4)))
+//@ ensures[result] result == z
+//@ modifies z
+//@ end
+
+//@ func E12.MulBy34
+//@ layer ring E2
+//@ option interior
+//@ ensures[value] tvec(z) == t12mul(NR_E2, old(tvec(z)), svec(6, 0, 1, 3, old(*c3), 4, old(*c4)))
+//@ ensures[result] result == z
+//@ modifies z
+//@ end
+
+//@ func Mul034By034
+//@ layer ring E2
+//@ ensures[value] svec(6, 0, result[0], 1, result[1], 2, result[2], 3, result[3], 4, result[4]) == t12mul(NR_E2, svec(6, 0, *d0, 3, *d3, 4, *d4), svec(6, 0, *c0, 3, *c3, 4, *c4))
+//@ modifies nothing
+//@ end
+
+//@ func Mul34By34
+//@ layer ring E2
+//@ ensures[value] svec(6, 0, result[0], 1, result[1], 2, result[2], 3, result[3], 4, result[4]) == t12mul(NR_E2, svec(6, 0, 1, 3, *d3, 4, *d4), svec(6, 0, 1, 3, *c3, 4, *c4))
+//@ modifies nothing
+//@ end
+
+//@ func E12.MulBy01234
+//@ layer ring E2
+//@ option interior
+//@ ensures[value] tvec(z) == t12mul(NR_E2, old(tvec(z)), svec(6, 0, old(x[0]), 1, old(x[1]), 2, old(x[2]), 3, old(x[3]), 4, old(x[4])))
+//@ ensures[result] result == z
+//@ modifies z
+//@ end
